@@ -1292,6 +1292,7 @@ func runC12(r *Rng, tier string, n int) {
 	runMultiHomed(r, tier)
 	runSessions(r, tier)
 	runKeptWriters(r, tier)
+	runPipelined(r, tier)
 	runDeadlines(r, tier)
 	stat["retain_gen_retry"] = int(genRetries.Load())
 	Stat(stat)
